@@ -578,6 +578,11 @@ class BatteryDistributionAlgorithm:
         inverter_distribution = self._distribute_multi_inverter_pairs(
             distribution, excl_bounds, incl_bounds
         )
+        # Power that could not be placed on the inverters of a set because of their
+        # bounds is not distributed, so it belongs to the remaining power.
+        left_over += sum(p.power for p in distribution.values()) - sum(
+            inverter_distribution.values()
+        )
 
         return DistributionResult(
             distribution=inverter_distribution, remaining_power=left_over
